@@ -10,7 +10,8 @@ def senseCh : Sense → String | .inside => "-" | .outside => "+"
 def hxExt : Ext Float → String
   | .ninf => "fff0000000000000"
   | .pinf => "7ff0000000000000"
-  | .fin a => hx (a + 0.0)
+  | .fin a => if a != a then "nan" else hx (a + 0.0)
+  | .nan => "nan"
 
 def showBox (b : BBox Float) : String :=
   s!"{hxExt b.lo.x} {hxExt b.lo.y} {hxExt b.lo.z} {hxExt b.hi.x} {hxExt b.hi.y} {hxExt b.hi.z}"
@@ -57,18 +58,24 @@ def anglesValid : List String → Bool
     | _ => true
   | _ => true
 
-/-- `<tol> (n | t x y z) rest…` -/
-def parseHead : List String → Option (Tol Float × Option (Vec3 Float) × List String)
+/-- `<tol> (n | t x y z | x r00 … r22 tx ty tz) rest…` -/
+def parseHead : List String → Option (Tol Float × Xform Float × List String)
   | t :: "n" :: rest => match pf16 t with
-    | some tol => if tol > 0.0 && tol < 1.0 then some (Tol.fromRelative tol, none, rest) else none
+    | some tol => if tol > 0.0 && tol < 1.0 then some (Tol.fromRelative tol, .none, rest) else none
     | none => none
   | t :: "t" :: x :: y :: z :: rest => match pf16 t, pfs16 [x, y, z] with
     | some tol, some [x, y, z] =>
-      if tol > 0.0 && tol < 1.0 then some (Tol.fromRelative tol, some ⟨x, y, z⟩, rest) else none
+      if tol > 0.0 && tol < 1.0 then some (Tol.fromRelative tol, .tra ⟨x, y, z⟩, rest) else none
+    | _, _ => none
+  | t :: "x" :: rest => match pf16 t, pfs16 (rest.take 12) with
+    | some tol, some [a, b, c, d, e, f, g, h, i, x, y, z] =>
+      if tol > 0.0 && tol < 1.0 then
+        some (Tol.fromRelative tol, .full ⟨⟨⟨a, b, c⟩, ⟨d, e, f⟩, ⟨g, h, i⟩⟩, ⟨x, y, z⟩⟩, rest.drop 12)
+      else none
     | _, _ => none
   | _ => none
 
-def showBuild (tra : Option (Vec3 Float)) (st : BState Float) : String :=
+def showBuild (tra : Xform Float) (st : BState Float) : String :=
   if st.diverged then "diverged" else
   let nodes := st.nodes.map fun (s, id) =>
     s!" ; {senseCh s} {id} {showSurface (st.store.surfaces.getD id (.sphereCentered 0.0))}"
@@ -113,6 +120,12 @@ def driverStep (st : Unit) (line : String) : Unit × String :=
           | none => "diverged")
        | none => "bad-op"
      | _, _, _ => "bad-op")
+  -- `xform <surface> | r00 … r22 tx ty tz` : SurfaceTransformer
+  | "xform" :: rest => withSurface rest fun s a =>
+      match a with
+      | [a, b, c, d, e, f, g, h, i, x, y, z] =>
+        showSurface (s.transform ⟨⟨⟨a, b, c⟩, ⟨d, e, f⟩, ⟨g, h, i⟩⟩, ⟨x, y, z⟩⟩)
+      | _ => "bad-op"
   | "build" :: rest =>
     (match parseHead rest with
      | some (tol, tra, rw) =>
